@@ -1010,18 +1010,24 @@ func (w *world) hammer(run int, c Case) string {
 	// machine can no longer bind a listener - a harness resource problem, not a property of C03.)
 	boom := &lab.RespScript{Status: 500, Framing: "close", Body: []byte("faulty-backend boom"), BarrierAfter: -1, Header: textPlain}
 	flaky := c.Kind == "flaky-load" && c.FlakyOneIn > 1
+	pace := 50 * time.Millisecond // free-running clients are paced: volume is not the point, being in flight at expiry instants is
+	gs := okScript("good")
+	gs.Framing = "close"
 	if flaky {
 		// FLAKY instead of dead: one request in FlakyOneIn (by client number + request number) carries the 5xx
-		// script, every other request - and every health probe - is answered 200
-		fs := okScript("faulty")
-		fs.Framing = "close"
-		w.faulty.Fallback(fs)
+		// script, every other request - and every health probe - is answered 200. Here volume IS the point
+		// (how often a success of a backend finishes right beside or right after one of its failures), so the
+		// free-running clients send back to back and every connection is kept alive: at most 24 clients over
+		// >= 2 backend entries stay within the 10 idle connections per backend that Helios pools, so no
+		// connection is opened or closed during the burst.
+		boom = &lab.RespScript{Status: 500, Framing: "cl", Body: []byte("faulty-backend boom"), BarrierAfter: -1, Header: textPlain}
+		w.faulty.Fallback(okScript("faulty"))
+		gs = okScript("good")
+		pace = 0
 	} else {
 		w.faulty.Fallback(boom)
 	}
 	faultyBefore := w.faulty.Received()
-	gs := okScript("good")
-	gs.Framing = "close"
 	w.good.Fallback(gs)
 	defer w.faulty.Fallback(okScript("faulty"))
 	defer w.good.Fallback(okScript("good"))
@@ -1121,7 +1127,7 @@ func (w *world) hammer(run int, c Case) string {
 				if connect(cl) {
 					exchange(cl)
 				}
-				time.Sleep(50 * time.Millisecond) // paced: volume is not the point, being in flight at expiry instants is
+				time.Sleep(pace)
 			}
 		}(cl)
 	}
